@@ -349,6 +349,17 @@ def op_table():
                            ("pt1.in.a", "7.1.0"), ("pt1.in.b", "7.1.1")])
         return "%s = %d;" % (e, v), ["w d:%s %d" % (pth, v)], None
 
+    @reg("w_incdec_path")
+    def _(r, st):
+        # ++ / -- through every kind of access path (member, nested member, element of a struct array, array member, arrow,
+        # three levels deep); statement form, prefix and postfix
+        e, pth = r.choice([("o1.x", "d:0.0"), ("o2.in.a", "d:1.1.0"), ("o1.ys[1]", "d:0.2.1"), ("oa[1].x", "d:3.1.0"), ("oa[0].in.b", "d:3.0.1.1"),
+                           ("p1->x", "p:0:0"), ("dp1.mid.x", "d:8.1.0"), ("dp1.mid.in.a", "d:8.1.1.0"), ("dp1.d", "d:8.0"), ("i1.b", "d:2.1"),
+                           ("ar2[2]", "d:5.2"), ("pt1.in.a", "d:7.1.0")])
+        k = r.below(4)
+        stmt = ["%s++;", "%s--;", "++%s;", "--%s;"][k] % e
+        return stmt, ["a %s %d" % (pth, 1 if k in (0, 2) else -1)], None
+
     @reg("c_sa_elem")
     def _(r, st):
         k = r.below(2)
